@@ -1992,6 +1992,11 @@ class UserActions(object):
     # We don't set the values of formula columns, they should just recalculate themselves
     if not col.is_formula():
       row_ids, values = col.rename_choices(renames)
+      # The column's storage also holds the default value ("") for row 0 and for removed rows;
+      # only actual records can be updated (this matters when renaming the empty choice).
+      existing = [i for i, r in enumerate(row_ids) if r in table.row_ids]
+      row_ids = [row_ids[i] for i in existing]
+      values = [values[i] for i in existing]
       values = [encode_object(v) for v in values]
       self.BulkUpdateRecord(table_id, row_ids, {col_id: values})
 
